@@ -451,3 +451,87 @@ Proof.
                   ltac:(unfold lossy_config_doc; cbn [cQMin cQMax]; lia) Hg') as R;
     rewrite Es in *; unfold set_quality in *; cbn [cQuality cQMin cQMax] in *; exact R ].
 Qed.
+
+(** * 12. every field of EncoderOptions: which checks it goes through (from the regenerated tables) *)
+Definition atom_fields (a : F.vatom) : list Z :=
+  match a with
+  | F.VLt f _ | F.VGt f _ | F.VNaN f | F.VInf f | F.VLenGt f _ | F.VResGt f _ _ _ => [f]
+  | F.VGtRes f g _ _ => [f; g]
+  end.
+Definition field_ids : list Z := map Z.of_nat (seq 0 (length F.opts_field_kinds)).
+Definition field_atoms (f : Z) : list F.vatom :=
+  filter (fun a => existsb (Z.eqb f) (atom_fields a)) F.validate_atoms.
+Definition field_rows (f : Z) : list (Z * Z * F.pkind) :=
+  filter (fun r => snd (fst r) =? f) F.prop_table.
+(** the generated per-field table: (field, kind, validation atoms, propagation rows) *)
+Definition field_treatment : list (Z * Z * list F.vatom * list (Z * Z * F.pkind)) :=
+  map (fun f => (f, kind_of f, field_atoms f, field_rows f)) field_ids.
+
+Definition has_atom (p : F.vatom -> bool) (f : Z) : bool := existsb p (field_atoms f).
+
+(** every non-bool field (int, float32, Preset, blob) is constrained by validateConfig *)
+Theorem every_numeric_field_validated :
+  forallb (fun f => (kind_of f =? 0) || negb (match field_atoms f with [] => true | _ => false end)) field_ids = true.
+Proof. vm_compute. reflexivity. Qed.
+
+(** every float32 field rejects NaN, +-Inf and negative values *)
+Theorem every_float_field_rejects_nan_inf_negative :
+  forallb (fun f => negb (kind_of f =? 1) ||
+                    (has_atom (fun a => match a with F.VNaN _ => true | _ => false end) f &&
+                     has_atom (fun a => match a with F.VInf _ => true | _ => false end) f &&
+                     has_atom (fun a => match a with F.VLt _ 0 => true | _ => false end) f)) field_ids = true.
+Proof. vm_compute. reflexivity. Qed.
+
+(** every int field has an upper bound; every field without a documented negative sentinel
+    also has the lower bound 0 *)
+Theorem every_int_field_bounded_above_except_target_size :
+  forallb (fun f => negb ((kind_of f =? 2) || (kind_of f =? 4)) || (f =? F.fld_TargetSize) ||
+                    has_atom (fun a => match a with F.VGt _ _ | F.VResGt _ _ _ _ | F.VGtRes _ _ _ _ => true | _ => false end) f) field_ids = true.
+Proof. vm_compute. reflexivity. Qed.
+
+(** * 13. documentation conformance, field by field: an option left at its documented default
+    value (DefaultOptions()'s sentinel) resolves to the documented default, whatever the other
+    fields are. *)
+Lemma apply_clamps_keeps : forall c,
+  cSNS (apply_clamps c) = cSNS c /\ cFStrength (apply_clamps c) = cFStrength c /\ cFType (apply_clamps c) = cFType c /\
+  cSegments (apply_clamps c) = cSegments c /\ cPass (apply_clamps c) = cPass c /\ cQMax (apply_clamps c) = cQMax c /\
+  cQMin (apply_clamps c) = cQMin c /\ cMethod (apply_clamps c) = cMethod c /\ cPartitions (apply_clamps c) = cPartitions c /\
+  cFSharpness (apply_clamps c) = cFSharpness c /\ cPreprocessing (apply_clamps c) = cPreprocessing c.
+Proof. intros c. destruct (apply_clamps_spec c) as [q' [-> _]]. unfold set_quality. cbn. repeat split. Qed.
+
+Theorem default_resolves_to_documented : forall o q ha,
+  (oSNSStrength o = -1 -> cSNS (lossy_config o q ha) = doc_SNSStrength) /\
+  (oFilterStrength o = -1 -> cFStrength (lossy_config o q ha) = doc_FilterStrength) /\
+  (oFilterType o = -1 -> cFType (lossy_config o q ha) = doc_FilterType) /\
+  (oSegments o = -1 -> cSegments (lossy_config o q ha) = doc_Segments) /\
+  (oPass o = -1 -> cPass (lossy_config o q ha) = doc_Pass) /\
+  (oQMax o = -1 -> cQMax (lossy_config o q ha) = doc_QMax) /\
+  (oQMin o = 0 -> cQMin (lossy_config o q ha) = 0) /\
+  (oPartitions o = 0 -> cPartitions (lossy_config o q ha) = 0) /\
+  (oFilterSharpness o = 0 -> cFSharpness (lossy_config o q ha) = 0) /\
+  (oMethod o = 4 -> cMethod (lossy_config o q ha) = 4) /\
+  (oAlphaCompression o = -1 -> aMethod (alpha_config o) = 1) /\
+  (oAlphaFiltering o = -1 -> aFilter (alpha_config o) = 4) /\
+  (oAlphaQuality o = -1 -> aQuality (alpha_config o) = doc_AlphaQuality).
+Proof.
+  intros o q ha. rewrite lossy_config_eq, alpha_config_eq.
+  destruct (apply_clamps_keeps (lossy_config_doc o q ha)) as (K1 & K2 & K3 & K4 & K5 & K6 & K7 & K8 & K9 & K10 & K11).
+  rewrite K1, K2, K3, K4, K5, K6, K7, K8, K9, K10.
+  unfold lossy_config_doc, alpha_config_doc, rq, rs. cbn [cSNS cFStrength cFType cSegments cPass cQMax cQMin cMethod
+    cPartitions cFSharpness aMethod aFilter aQuality].
+  repeat split; intros ->; reflexivity.
+Qed.
+
+(** The zero value EncoderOptions{} is accepted and is NOT DefaultOptions(): it means quality 0,
+    method 0, no SNS, no filter, raw unfiltered alpha at quality 0; only Segments and Pass fall
+    back to their defaults. *)
+Theorem zero_value_options_resolve_to : forall w h ha, 1 <= w <= 16383 -> 1 <= h <= 16383 ->
+  effective (Some zero_opts) w h ha =
+  Ok (ELossy (mkL 0 0 (FFin 0) 0 0 0 0 0 0 4 1 0 None 0 0 (if ha then 1 else 0)) (mkA 0 0 0 0) false false (0, 0, 0)).
+Proof.
+  intros w h ha Hw Hh. rewrite effective_eq. unfold effective_doc.
+  replace (validate_doc zero_opts) with false by (vm_compute; reflexivity).
+  replace ((w <=? 0) || (h <=? 0)) with false by lia.
+  replace ((w >? 16383) || (h >? 16383)) with false by lia.
+  destruct ha; vm_compute; reflexivity.
+Qed.
